@@ -107,6 +107,21 @@ void ob_c04j_arange()
     { VIEW(v, view::arange(5, 1, -1)); EXPECT_VIEW1("C04.view.arange.shape", "C04.view.arange.negative_step_default_dtype", v, 4, 5 - (long)i, 6); }
     { VIEW(v, view::arange(1, 7, 2)); EXPECT_VIEW1("C04.view.arange.shape", "C04.view.arange.default_dtype", v, 3, 1 + 2*(long)i, 7); }
 }
+// ---- arange over an integer grid with SYMBOLIC bounds: len = ceil((stop - start) / step) for every extent below 2^40 (exact integer
+// arithmetic; before F50 the length went through a float quotient), 0 for an empty range
+void ob_c04j_arange_length(long n, long a)
+{
+    ASSUME(n >= 0 && n < (1l << 40)); ASSUME(a >= 0 && a < (1l << 40));
+    { auto v = view::arange(n, i64); OBLIGE("C04.view.arange.length_for_every_stop", (size_t)nm::at(nm::shape(v), 0) == (size_t)n, 0); }
+    { auto v = view::arange(a, a + n, i64); OBLIGE("C04.view.arange.length_for_every_start_and_stop", (size_t)nm::at(nm::shape(v), 0) == (size_t)n, 1); }
+    { auto v = view::arange(a + n, a, 1l, i64); OBLIGE("C04.view.arange.empty_range_has_length_zero", (size_t)nm::at(nm::shape(v), 0) == (n == 0 ? 0 : 0), 4); }
+}
+void ob_c04j_arange_length_step(long n)
+{
+    ASSUME(n >= 1 && n < (1l << 40));
+    { auto v = view::arange(0l, n, 2l, i64); OBLIGE("C04.view.arange.length_with_a_step", (size_t)nm::at(nm::shape(v), 0) == (size_t)((n + 1) / 2), 2); }
+    { auto v = view::arange(n, 0l, -3l, i64); OBLIGE("C04.view.arange.length_with_a_negative_step", (size_t)nm::at(nm::shape(v), 0) == (size_t)((n + 2) / 3), 3); }
+}
 // ---- linspace (numpy.linspace: num samples, y[i] = start + i*step with step = (stop-start)/(num-1 or num), y[0] = start, and with
 // endpoint y[-1] = stop), symbolic floating-point bounds: the results are compared bit for bit, in the bounds' own type
 template <class T, size_t NUM, class V>
